@@ -7,6 +7,7 @@ mod group;
 mod hash;
 mod out;
 mod rng;
+mod sig;
 
 use std::collections::HashMap;
 
@@ -62,6 +63,9 @@ fn main() {
                 group::run(&mut tr, &mut rng, g, &what, &plan);
             }
         }
+        "xdh" => sig::run_xdh(&mut tr, &mut rng, num("n", 40)),
+        "eddsa" => sig::run_eddsa(&mut tr, &mut rng, &get("curve", "ed25519"), num("honest", 12), num("adv", 24)),
+        "ecdsa" => sig::run_ecdsa(&mut tr, &mut rng, &get("curve", "p256"), num("honest", 12), num("adv", 12)),
         "hash" => hash::run(&mut tr, &mut rng, &get("script", "")),
         _ => {
             eprintln!("unknown domain {}", domain);
